@@ -523,6 +523,12 @@ class Chan(Engine):
                     self._b32_judge(hrp, rendering[:p] + c + rendering[p + 1:], 'in %s case with character %d replaced by the non-ASCII look-alike U+%04X' % (rname, p, ord(c)),
                                     orig, False, fault='sub-unicode')
         ctx.fault('substitution.unicode-confusable', n * 8)
+        # --- whitespace and control characters a careless copy-paste or a line read from a file adds
+        for rendering in (text, text.upper()):
+            for c in ('\n', '\r', '\r\n', ' ', '\t', '\x00', '\x0b', '\x0c', '\x7f', '\u00a0', '\u2028', '\ufeff'):
+                for t in (rendering + c, c + rendering, rendering[:sep + 1] + c + rendering[sep + 1:], rendering + c + c, rendering[:-1] + c):
+                    self._b32_judge(hrp, t, 'with the whitespace/control character %r added' % c, orig, False, fault='ws')
+        ctx.fault('text.whitespace', 120)
         # --- double substitutions: exhaustive or seeded
         if a['doubles'] == 'all':
             cnt = 0
